@@ -1,11 +1,104 @@
 import TdVerif.Sexp
+import TdVerif.Model.C06Cache
+import TdVerif.Drive.C05
 
 namespace TdVerif.Drive
-open TdVerif Sexp
+open TdVerif Sexp TdVerif.C05 TdVerif.C06
 
-/-- line-protocol handler for C06: commands are named `c06.<something>` -/
+namespace C06D
+
+/-- the memoised methods the harness drives through the model (indices are the protocol's method ids):
+  0 `_items_list(include_nested, leaves_only)`   1 `_values_list(include_nested, leaves_only)`
+  2 `sorted_keys`   3 `_depth()`   4 `flatten_keys(".")` (allocates)   5 lazy `_key_list()`
+  6 `_nested_keys(include_nested, leaves_only, is_leaf)` with an `is_leaf` callable keyed by address
+    (objects with an odd identity treat every tensor collection as a leaf)
+  identities ≥ 500000 are non-tensor entries: tensor collections without tensor leaves, invisible to `leaves_only` reads -/
+def isTensorLeaf : Ent → Bool
+  | .leaf o => o < 500000
+  | .node _ => false
+
+def keep (incNested leavesOnly : Nat) (p : List String × Ent) : Bool :=
+  (incNested != 0 || p.1.length == 1) && (leavesOnly == 0 || isTensorLeaf p.2)
+
+def dropIds (c : Content) : Content := c.map (fun p => (p.1, Ent.leaf 0))
+
+def maxLen (c : Content) : Nat := c.foldl (fun acc p => max acc (p.1.length - 1)) 0
+
+/-- keys shared by every member of a lazy stack (paths are `[member, key, …]`) -/
+def keyList (c : Content) : Content :=
+  let members := (c.filterMap (fun p => match p.1 with | [m] => some m | _ => none)).eraseDups
+  let keysOf (m : String) := c.filterMap (fun p => match p.1 with | [m', k] => if m' == m then some k else none | _ => none)
+  match members with
+  | [] => []
+  | m0 :: rest => ((keysOf m0).filter (fun k => rest.all (fun m => (keysOf m).contains k))).eraseDups.map (fun k => ([k], Ent.leaf 0))
+
+/-- prune below the nodes when `is_leaf` says a tensor collection is a leaf -/
+def stopAtNodes (c : Content) : Content :=
+  c.filter (fun p => p.1.length == 1)
+
+def sem : Sem where
+  obs := fun q c => match q with
+    | (0, [.val a, .val b]) => c.filter (keep a b)
+    | (1, [.val a, .val b]) => c.filter (keep a b)
+    | (2, _) => dropIds (c.filter (keep 0 0))
+    | (3, _) => [([], Ent.leaf (maxLen (c.filter (fun p => match p.2 with | .leaf _ => true | .node _ => false))))]   -- `is_leaf=_is_leaf_nontensor`
+    | (5, _) => keyList c
+    | (6, [.val a, .val b, .obj o]) =>
+        if o % 2 == 1 then dropIds (c.filter (fun p => a != 0 || p.1.length == 1))   -- `is_leaf ≡ True`: every entry counts
+        else dropIds (c.filter (keep a b))
+    | _ => []
+  build := fun _ c => c.filterMap (fun p => match p.2 with
+    | .leaf o => some (".".intercalate p.1, o, 0)
+    | .node _ => none)
+
+def arg? : Sexp → Option Arg
+  | .list [.atom "obj", o, a] => do pure (.obj (← asNat? o) (← asNat? a))
+  | s => do pure (.val (← asNat? s))
+
+def cev? : Sexp → Option CEv
+  | .list (.atom "read" :: i :: m :: args) => do
+      let m ← asNat? m
+      pure (.read (← asNat? i) { meth := m, args := ← args.mapM arg?, allocates := m == 4, tensorValued := false })
+  | .list [.atom "rebind", i, .atom k, o] => do pure (.rebind (← asNat? i) k (← asNat? o))
+  | s => do pure (.base (← C05D.ev? s))
+
+def entSexp : Ent → Sexp
+  | .leaf o => .list [.atom "l", ofNat o]
+  | .node j => .list [.atom "n", ofNat j]
+
+def contentSexp (c : Content) : Sexp :=
+  .list (c.map (fun p => .list [.list (p.1.map .atom), entSexp p.2]))
+
+def hitAtom : Hit → String
+  | .bypass => "bypass"
+  | .miss => "miss"
+  | .hit => "hit"
+
+partial def runC (s : CState) : List Sexp → List Sexp → Option (List Sexp)
+  | [], acc => some acc.reverse
+  | e :: rest, acc => do
+      let ev ← cev? e
+      match ev with
+      | .read i q =>
+        if live s.heap i && i < s.heap.size then
+          let r := readEv sem s i q
+          let res := match r.2.1 with
+            | .value c => Sexp.list [.atom "value", contentSexp c]
+            | .object o => Sexp.list [.atom "object", ofNat o,
+                .list (((r.1.heap.node o).leaves).map (fun l => .list [.atom l.1, ofNat l.2.1]))]
+          runC r.1 rest (Sexp.list [.atom (hitAtom r.2.2), res] :: acc)
+        else runC s rest (Sexp.atom "other" :: acc)
+      | _ =>
+        let r := cstep sem s ev
+        let sizes := (List.range r.1.heap.size).map (fun j => ofNat (r.1.cache j).length)
+        runC r.1 rest (Sexp.list [.atom (C05D.outAtom r.2), C05D.view r.1.heap, .list sizes] :: acc)
+
+end C06D
+
+/-- line-protocol handler for C06 -/
 def handleC06 (cmd : String) (args : List Sexp) : Option Sexp :=
   match cmd, args with
+  | "c06.run", evs => do pure (.list (← C06D.runC { base := { heap := Heap.empty } } evs []))
   | _, _ => none
 
 end TdVerif.Drive
